@@ -16,7 +16,7 @@ def one(path, props):
     name = os.path.basename(os.path.dirname(path)) + '/' + os.path.basename(path) if 'refac' in path else os.path.basename(path)
     d, _ = R.make_copy([])
     try:
-        r = subprocess.run(['patch', '-p1', '-s', '-i', path], cwd=d, stdout=subprocess.PIPE, stderr=subprocess.STDOUT, text=True)
+        r = subprocess.run(['patch', '-p1', '-s', '-i', os.path.abspath(path)], cwd=d, stdout=subprocess.PIPE, stderr=subprocess.STDOUT, text=True)
         if r.returncode != 0:
             return {'id': name, 'status': 'SKIPPED', 'detail': 'patch does not apply'}
         try:
